@@ -1820,3 +1820,383 @@ func ruleNIL1(c *Ctx) {
 		c.fail("map-read/count", nil, fmt.Sprintf("only %d reads of map[string]Object found", n))
 	}
 }
+
+// ---------------------------------------------------------------- CALL.1 (C16, C01), ADPT.6 (C19), DEDUP.3 (C12), XCH.5 (C15)
+
+// CALL.1: the arguments a call collects are the callee's own. Every array the
+// OpCall arm builds (the roll-up of variadic arguments) stands on storage made
+// in that arm; it never adopts the slice of an operand (a spread array), which
+// the caller - or, in a self tail call, the previous activation and the
+// closures it created - still holds and may write.
+func ruleCALL1(c *Ctx) {
+	w := c.W
+	fi := w.flow()
+	if fi.err != "" {
+		c.anchor(fi.err)
+		return
+	}
+	seq := seqKeys{}
+	n := 0
+	for _, s := range fi.Sinks {
+		if s.Kind != skStoreMutValue {
+			continue
+		}
+		ctx := w.ctxKey(s.Pos)
+		if !strings.HasPrefix(ctx, "VM.run/") || !strings.Contains(ctx, "OpCall") {
+			continue
+		}
+		n++
+		key := seq.next(ctx + "/argument-array-storage")
+		c.check(s.Origin == oFresh, key, &posNode{s.Pos}, "built on storage made in the arm", "the array handed to the callee is built on storage of origin "+originStr(s.Origin)+" (not fresh): caller and callee - in a tail call, successive activations - share elements, so a write in one is seen through the other")
+	}
+	if n < 1 {
+		c.fail("argument-array-storage/count", nil, "the variadic roll-up of OpCall was not found among the container constructions")
+	}
+}
+
+// ADPT.6: text.re_replace / regexp.replace re-implement ReplaceAllString with a
+// size limit. The text substituted for each match is always the expansion of
+// the template ($0, ${name}, $$ …) by the regexp package; the template is never
+// inserted as it is.
+func ruleADPT6(c *Ctx) {
+	w := c.W
+	p := w.Stdlib
+	fd := w.FuncDecl(p, "doTextRegexpReplace")
+	if fd == nil {
+		c.anchor("doTextRegexpReplace")
+		return
+	}
+	// the accumulated output: the string variable returned first
+	var loop *ast.RangeStmt
+	ast.Inspect(fd.Body, func(nd ast.Node) bool {
+		if r, ok := nd.(*ast.RangeStmt); ok && loop == nil {
+			loop = r
+		}
+		return true
+	})
+	if loop == nil {
+		c.fail("regexp-replace/loop", fd, "no loop over the matches")
+		return
+	}
+	matches := containsNode(loop.X, func(nd ast.Node) bool {
+		call, ok := nd.(*ast.CallExpr)
+		return ok && Callee(p, call) != nil && Callee(p, call).Name() == "FindAllStringSubmatchIndex"
+	})
+	c.check(matches, "regexp-replace/matches", loop, "iterates over FindAllStringSubmatchIndex(src, -1)", "the replacement loop does not range over all submatch indexes of the source")
+	// every []byte / string variable appended to the output inside the loop
+	// is defined only by ExpandString/Expand
+	isExpand := func(e ast.Expr) bool {
+		call, ok := ast.Unparen(e).(*ast.CallExpr)
+		if !ok {
+			return false
+		}
+		fn := Callee(p, call)
+		return fn != nil && fn.Pkg() != nil && fn.Pkg().Path() == "regexp" && (fn.Name() == "ExpandString" || fn.Name() == "Expand")
+	}
+	var expVars []types.Object
+	ast.Inspect(loop.Body, func(nd ast.Node) bool {
+		as, ok := nd.(*ast.AssignStmt)
+		if ok && len(as.Lhs) == 1 && len(as.Rhs) == 1 && isExpand(as.Rhs[0]) {
+			if id, ok := as.Lhs[0].(*ast.Ident); ok {
+				expVars = append(expVars, p.TypesInfo.ObjectOf(id))
+			}
+		}
+		return true
+	})
+	if len(expVars) == 0 {
+		c.fail("regexp-replace/expands-template", loop, "the template is not expanded with regexp's ExpandString for each match")
+		return
+	}
+	var probs []string
+	for _, o := range expVars {
+		ast.Inspect(fd.Body, func(nd ast.Node) bool {
+			switch x := nd.(type) {
+			case *ast.AssignStmt:
+				for i, l := range x.Lhs {
+					if id, ok := l.(*ast.Ident); ok && p.TypesInfo.ObjectOf(id) == o && i < len(x.Rhs) && !isExpand(x.Rhs[i]) {
+						probs = append(probs, w.Src(x))
+					}
+				}
+			case *ast.ValueSpec:
+				for i, nm := range x.Names {
+					if p.TypesInfo.Defs[nm] == o && i < len(x.Values) && !isExpand(x.Values[i]) {
+						probs = append(probs, w.Src(x))
+					}
+				}
+			}
+			return true
+		})
+	}
+	// the expansion is what is appended: the loop's output assignment mentions the variable
+	used := containsNode(loop.Body, func(nd ast.Node) bool {
+		as, ok := nd.(*ast.AssignStmt)
+		if !ok || (as.Tok != token.ADD_ASSIGN && as.Tok != token.ASSIGN) {
+			return false
+		}
+		return containsNode(as.Rhs[0], func(m ast.Node) bool {
+			id, ok := m.(*ast.Ident)
+			return ok && p.TypesInfo.Uses[id] == expVars[0]
+		})
+	})
+	c.check(len(probs) == 0 && used, "regexp-replace/expands-template", loop, "every match is replaced by regexp's expansion of the template", "the text substituted for a match is not always the expansion of the template: "+strings.Join(probs, "; ")+" - for templates like $0, ${0} or $$ the result differs from regexp.ReplaceAllString")
+}
+
+// DEDUP.3: constants that RemoveDuplicates merges must be indistinguishable
+// to the program. Numbers, strings and chars are merged by value and builtin
+// module maps by module name; so the Equals of these types may not look at
+// object identity (a pointer comparison of receiver and argument): two imports
+// of one module compare differently before and after de-duplication otherwise.
+func ruleDEDUP3(c *Ctx) {
+	w := c.W
+	p := w.Root
+	eqs := w.objectMethodDecls("Equals")
+	n := 0
+	for _, tn := range []string{"Int", "Float", "String", "Char", "ImmutableMap"} {
+		fd := eqs[tn]
+		if fd == nil {
+			c.anchor(tn + ".Equals")
+			continue
+		}
+		n++
+		recv := p.TypesInfo.Defs[fd.Recv.List[0].Names[0]]
+		identity := containsNode(fd.Body, func(nd ast.Node) bool {
+			b, ok := nd.(*ast.BinaryExpr)
+			if !ok || (b.Op != token.EQL && b.Op != token.NEQ) {
+				return false
+			}
+			mentionsRecv := func(e ast.Expr) bool {
+				e = ast.Unparen(e)
+				if call, ok := e.(*ast.CallExpr); ok && len(call.Args) == 1 {
+					if tv, ok := p.TypesInfo.Types[call.Fun]; ok && tv.IsType() {
+						e = ast.Unparen(call.Args[0])
+					}
+				}
+				return isObj(p, e, recv)
+			}
+			return mentionsRecv(b.X) || mentionsRecv(b.Y)
+		})
+		c.check(!identity, "merged-constants/"+tn, fd, "equality does not depend on object identity", tn+".Equals compares object identity, but RemoveDuplicates merges equal "+tn+" constants into one object: `import(\"m\") == import(\"m\")` (or two equal literals) changes its value after de-duplication")
+	}
+	if n < 5 {
+		c.fail("merged-constants/count", nil, "Equals methods of the merged constant types not found")
+	}
+}
+
+// XCH.5: a value the host hands over is the value the script gets. prepCompile
+// (Add) and Set store the Object itself - the result of FromInterface - never a
+// Copy of it: Copy turns immutable arrays and maps into mutable ones, so the
+// documented type of the variable would change on the way in.
+func ruleXCH5(c *Ctx) {
+	w := c.W
+	p := w.Root
+	n := 0
+	for _, name := range []string{"Script.prepCompile", "Compiled.Set"} {
+		fd := w.FuncDecl(p, name)
+		if fd == nil {
+			c.anchor(name)
+			continue
+		}
+		ast.Inspect(fd.Body, func(nd ast.Node) bool {
+			as, ok := nd.(*ast.AssignStmt)
+			if !ok || len(as.Lhs) != 1 || len(as.Rhs) != 1 {
+				return true
+			}
+			ix, ok := as.Lhs[0].(*ast.IndexExpr)
+			if !ok {
+				return true
+			}
+			isGlobals := false
+			if f, _ := FieldSel(p, ix.X); f != nil && f.Name() == "globals" {
+				isGlobals = true
+			}
+			if id, ok := ast.Unparen(ix.X).(*ast.Ident); ok && id.Name == "globals" {
+				isGlobals = true
+			}
+			if t := p.TypesInfo.Types[ix.X].Type; !isGlobals || t == nil || types.TypeString(t, func(*types.Package) string { return "" }) != "[]Object" {
+				return true
+			}
+			n++
+			// the stored value (or the variable it comes from) is not produced by Copy
+			copied := containsNode(fd.Body, func(m ast.Node) bool {
+				call, ok := m.(*ast.CallExpr)
+				return ok && Callee(p, call) != nil && Callee(p, call).Name() == "Copy" && len(call.Args) == 0
+			})
+			c.check(!copied, "host-value-stored-as-is/"+name, as, "the host's object is stored as it is", name+" stores a Copy() of the host's value: Copy turns an immutable array or map into a mutable one, so the variable no longer has the type (or the write protection) the host gave it")
+			return true
+		})
+	}
+	if n < 2 {
+		c.fail("host-value-stored-as-is/count", nil, fmt.Sprintf("expected the stores into the globals slice of prepCompile and Set, found %d", n))
+	}
+}
+
+// ---------------------------------------------------------------- COPY.2 (C14, C08, C10), ADPT.7 (C19)
+
+// COPY.2: a copy is complete. The composite literal with which a Copy method
+// builds its result mentions every field of the type (embedded bases and
+// tabled caches aside): a field left out is silently zero in the copy - for a
+// compiled function the source map, without which a run-time error inside the
+// copy has no location.
+func ruleCOPY2(c *Ctx) {
+	w := c.W
+	p := w.Root
+	caches := map[string]string{"String.runeStr": "lazily rebuilt cache"}
+	cps := w.objectMethodDecls("Copy")
+	n := 0
+	for _, tn := range sortedKeys(cps) {
+		fd := cps[tn]
+		tobj := p.Types.Scope().Lookup(tn)
+		if tobj == nil {
+			continue
+		}
+		st, ok := tobj.Type().Underlying().(*types.Struct)
+		if !ok {
+			continue
+		}
+		var lit *ast.CompositeLit
+		ast.Inspect(fd.Body, func(nd ast.Node) bool {
+			cl, ok := nd.(*ast.CompositeLit)
+			if !ok || lit != nil {
+				return true
+			}
+			// the copy: same type, or the mutable twin of an immutable container
+			if ln, _ := namedName(p.TypesInfo.Types[cl].Type); ln == tn || "Immutable"+ln == tn {
+				lit = cl
+			}
+			return true
+		})
+		if lit == nil {
+			continue // returns the receiver (singletons) or builds the copy in steps (checked by COPY.1)
+		}
+		set := map[string]bool{}
+		keyed := true
+		for _, e := range lit.Elts {
+			kv, ok := e.(*ast.KeyValueExpr)
+			if !ok {
+				keyed = false
+				continue
+			}
+			if id, ok := kv.Key.(*ast.Ident); ok {
+				set[id.Name] = true
+			}
+		}
+		if !keyed {
+			continue
+		}
+		// fields assigned after construction count as well
+		ast.Inspect(fd.Body, func(nd ast.Node) bool {
+			if as, ok := nd.(*ast.AssignStmt); ok {
+				for _, l := range as.Lhs {
+					if f, _ := FieldSel(p, l); f != nil {
+						set[f.Name()] = true
+					}
+				}
+			}
+			return true
+		})
+		n++
+		var missing []string
+		for i := 0; i < st.NumFields(); i++ {
+			f := st.Field(i)
+			if f.Embedded() || set[f.Name()] {
+				continue
+			}
+			if _, ok := caches[tn+"."+f.Name()]; ok {
+				continue
+			}
+			missing = append(missing, f.Name())
+		}
+		c.check(len(missing) == 0, "copy-complete/"+tn, fd, "every field is carried over", fmt.Sprintf("%s.Copy leaves out %s: the copy has the zero value there (for a function's SourceMap: errors inside the copy have no location)", tn, strings.Join(missing, ", ")))
+	}
+	if n < 8 {
+		c.fail("copy-complete/count", nil, fmt.Sprintf("only %d copying types with keyed literals examined", n))
+	}
+}
+
+// ADPT.7: indexes that come from the wrapped function are checked before they
+// are used. A submatch index pair of regexp's Find…Index is -1,-1 for a group
+// that did not take part in the match: slicing the subject with it must sit
+// behind a `>= 0` test (or after a `< 0 → continue`); and a string argument is
+// indexed at a constant position only behind a test of its length.
+func ruleADPT7(c *Ctx) {
+	w := c.W
+	p := w.Stdlib
+	n := 0
+	seq := seqKeys{}
+	w.AllFuncDecls(p, func(fd *ast.FuncDecl) {
+		inspectWithStack(fd.Body, func(nd ast.Node, stack []ast.Node) bool {
+			switch x := nd.(type) {
+			case *ast.SliceExpr:
+				// s[m[i]:m[i+1]] with m an []int
+				lo, ok1 := ast.Unparen(x.Low).(*ast.IndexExpr)
+				hi, ok2 := ast.Unparen(x.High).(*ast.IndexExpr)
+				if x.Low == nil || x.High == nil || !ok1 || !ok2 {
+					return true
+				}
+				if t := p.TypesInfo.Types[lo.X].Type; t == nil || types.TypeString(t, nil) != "[]int" {
+					return true
+				}
+				if t := p.TypesInfo.Types[x.X].Type; t == nil || types.TypeString(t.Underlying(), nil) != "string" {
+					return true
+				}
+				_ = hi
+				n++
+				msrc := strings.ReplaceAll(w.Src(lo), " ", "")
+				guarded := false
+				for i := len(stack) - 1; i > 0 && !guarded; i-- {
+					switch par := stack[i-1].(type) {
+					case *ast.IfStmt:
+						if stack[i] == ast.Node(par.Body) {
+							cs := strings.ReplaceAll(w.Src(par.Cond), " ", "")
+							if strings.Contains(cs, msrc+">=0") || strings.Contains(cs, "0<="+msrc) {
+								guarded = true
+							}
+						}
+					case *ast.BlockStmt:
+						for _, s := range par.List {
+							if ast.Node(s) == stack[i] {
+								break
+							}
+							if is, ok := s.(*ast.IfStmt); ok && is.Else == nil && blockTerminates(is.Body.List) {
+								cs := strings.ReplaceAll(w.Src(is.Cond), " ", "")
+								if strings.Contains(cs, msrc+"<0") || strings.Contains(cs, "0>"+msrc) {
+									guarded = true
+								}
+							}
+						}
+					}
+				}
+				c.check(guarded, seq.next("submatch-index/"+funcName(fd)), x, "submatch indexes tested against -1 before slicing", "the subject is sliced with a submatch index pair without testing it: a group that did not take part in the match has index -1 and the slice panics (Go's own API reports -1)")
+			case *ast.IndexExpr:
+				k, ok := ConstInt(p, x.Index)
+				if !ok {
+					return true
+				}
+				t := p.TypesInfo.Types[x.X].Type
+				if t == nil || types.TypeString(t.Underlying(), nil) != "string" {
+					return true
+				}
+				id, ok := ast.Unparen(x.X).(*ast.Ident)
+				if !ok {
+					return true
+				}
+				n++
+				guarded := containsNode(fd.Body, func(m ast.Node) bool {
+					is, ok := m.(*ast.IfStmt)
+					if !ok || is.Pos() > x.Pos() {
+						return false
+					}
+					return containsNode(is.Cond, func(q ast.Node) bool {
+						call, ok := q.(*ast.CallExpr)
+						return ok && IsBuiltinCall(p, call, "len") && len(call.Args) == 1 && isObj(p, call.Args[0], p.TypesInfo.Uses[id])
+					})
+				})
+				c.check(guarded, seq.next(fmt.Sprintf("string-index/%s[%d]", funcName(fd), k)), x, "the string's length is tested before it is indexed", fmt.Sprintf("%s[%d] is read without a test of the string's length: an empty (or short) argument makes the function panic", id.Name, k))
+			}
+			return true
+		})
+	})
+	if n < 3 {
+		c.fail("checked-indexes/count", nil, fmt.Sprintf("only %d index uses examined", n))
+	}
+}
